@@ -295,7 +295,40 @@ func (pc *pathCtx) learnBounds(cond *Term, side bool) {
 	}
 	a, b := cond.args[0], cond.args[1]
 	one := bigOne
-	switch cond.op {
+	op := cond.op
+	if (op == OpSLt || op == OpSLe) && a.sort > 0 {
+		maxS := new(big.Int).Sub(new(big.Int).Lsh(bigOne, uint(a.sort-1)), bigOne)
+		nonneg := func(t *Term) bool { _, hi := pc.urange(t, 0); return hi.Cmp(maxS) <= 0 }
+		switch {
+		case nonneg(a) && nonneg(b):
+			if op == OpSLt {
+				op = OpULt
+			} else {
+				op = OpULe
+			}
+		case side && a.op == OpConst && nonneg(a):
+			// c <(=) b signed with c >= 0: b is non-negative as well
+			pc.setHi(b, maxS)
+			if op == OpSLt {
+				pc.setLo(b, new(big.Int).Add(a.val, one))
+			} else {
+				pc.setLo(b, a.val)
+			}
+			return
+		case !side && b.op == OpConst && nonneg(b):
+			// not (a <(=) c) signed with c >= 0: a > c or a >= c, so a is non-negative
+			pc.setHi(a, maxS)
+			if op == OpSLt {
+				pc.setLo(a, b.val)
+			} else {
+				pc.setLo(a, new(big.Int).Add(b.val, one))
+			}
+			return
+		default:
+			return
+		}
+	}
+	switch op {
 	case OpULt:
 		if b.op == OpConst { // a < c
 			if side {
@@ -421,7 +454,7 @@ func (pc *pathCtx) decideByRange(cond *Term) int {
 			return r
 		}
 		return 1 - r
-	case OpULt, OpULe, OpEq:
+	case OpULt, OpULe, OpEq, OpSLt, OpSLe:
 		a, b := cond.args[0], cond.args[1]
 		if a.sort <= 0 {
 			return -1
@@ -431,7 +464,19 @@ func (pc *pathCtx) decideByRange(cond *Term) int {
 		}
 		alo, ahi := pc.urange(a, 0)
 		blo, bhi := pc.urange(b, 0)
-		switch cond.op {
+		op := cond.op
+		if op == OpSLt || op == OpSLe {
+			maxS := new(big.Int).Sub(new(big.Int).Lsh(bigOne, uint(a.sort-1)), bigOne)
+			if ahi.Cmp(maxS) > 0 || bhi.Cmp(maxS) > 0 {
+				return -1
+			}
+			if op == OpSLt {
+				op = OpULt
+			} else {
+				op = OpULe
+			}
+		}
+		switch op {
 		case OpULt:
 			if ahi.Cmp(blo) < 0 {
 				return 1
